@@ -1,6 +1,6 @@
 """C16 — String methods (structural clauses only)."""
 
-from ..rules import builtins, exceptions, tables, textparse
+from ..rules import builtins, exceptions, optargs, tables, textparse
 
 FAMILIES = set("string".split(","))
 PREFIXES = "_make_string_method|fromCharCode_fn|string_call".split("|")
@@ -22,4 +22,5 @@ def run(ctx, rep):
     textparse.rule_negative_positions(ctx, rep, "C16-R4", only=_in_family, floor=3)
     textparse.rule_sibling_index_readers(ctx, rep, "C16-R5")
     textparse.rule_script_whitespace(ctx, rep, "C16-R6", only=_in_family)
+    optargs.rule_missing_is_undefined(ctx, rep, "C16-R7", lambda f: _in_family(f.qual), "the String methods and constructor", floor=5)
     rep.undecided += ["the method result tables over the argument grid (values, not shape): a runtime differential, outside static analysis"]
